@@ -37,6 +37,7 @@ import CatVerif.Proofs.MidLine
 import CatVerif.Proofs.Readers
 import CatVerif.Proofs.Rest
 import CatVerif.Properties.C15
+import CatVerif.Proofs.Steps.ReadChar
 namespace Cat
 open St
 
@@ -252,5 +253,9 @@ example : (runOps ⟨exDesc, init exDesc (List.replicate 16 0) [] [[0]]⟩
     (runOps ⟨exDesc, init exDesc (List.replicate 16 0) [] [[0]]⟩
       [.service { rd := some 65 }, .service { rd := some 84 }, .service { rd := some 10 }]).1.s.state ≠ .hold := by
   decide
+
+/-- the one place a byte is taken from the input (`read_cmd_char`: at most one byte per call, case-folded outside the
+argument text) is the function re-recognised in the source on every run (translator item T14) -/
+theorem C01_read_generated : readCmdChar = Gen.read_cmd_char := readCmdChar_generated
 
 end Cat
